@@ -58,6 +58,12 @@ class SimErr(Exception):
         # only (`Event.fail` accepts any BaseException; so must a failing process)
         if cls is SimErr and sum(map(ord, str(tag))) % 4 == 0:
             return SimAbort(tag)
+        if cls is SimErr and sum(map(ord, str(tag))) % 8 == 1:
+            # ... and some are failures collected elsewhere (a native scope's `Concurrent`)
+            # that are passed on as they are: one exception object like any other
+            collected = usim.Concurrent(PlainSimErr(tag))
+            collected.tag = tag
+            return collected
         return super().__new__(cls, tag)
 
     def __init__(self, tag):
@@ -71,7 +77,11 @@ class SimAbort(BaseException):
         self.tag = tag
 
 
-SIM_ERRORS = (SimErr, SimAbort)
+class PlainSimErr(SimErr):
+    pass
+
+
+SIM_ERRORS = (SimErr, SimAbort, usim.Concurrent)
 
 
 def n_cases(tier):
@@ -456,7 +466,7 @@ class World:
 def describe_outcome(kind, exc):
     if kind == 'ok':
         return ('ok', None)
-    if isinstance(exc, SIM_ERRORS):
+    if isinstance(exc, SIM_ERRORS) and getattr(exc, 'tag', None) is not None:
         return ('SimErr', exc.tag)
     return (type(exc).__name__, None)
 
